@@ -3,7 +3,7 @@
 (split out of GenRegs3.lean so that an equality that no longer holds blocks only the properties that rely on it)
 -/
 import Qvnt.Lemmas.GenCreg
-import Qvnt.Lemmas.GenQuant
+import Qvnt.Lemmas.GenQProb
 import Qvnt.Lemmas.GenOps
 import Qvnt.Lemmas.GenVirtl
 
@@ -83,12 +83,6 @@ theorem quant_reset_by_mask_eq (r : QReg R) (mask : Nat) (ds : List Nat) :
         · simp [hz]
         · simp [hz, quant_apply_eq _ _ (x_ctrl _)]
 
-
-theorem quant_get_vreg_by_eq (r : QReg R) (mask : Nat) :
-    quant_get_vreg_by (ofModel r) mask = (r.getVRegBy mask).map vregOfModel := by
-  unfold quant_get_vreg_by QReg.getVRegBy
-  simp only [ofModel, notW_eq, vreg_new_with_mask_eq]
-  by_cases h : mask &&& CReg.notW r.qMask = 0 <;> simp [h]
 
 end apply
 end Qvnt.Gen2
